@@ -77,7 +77,7 @@ def main():
                 apply_mutant(repo, m)
             ok, tail = run_suite(repo)
             for prop in props:
-                rc, out = run_check(prop, repo)
+                rc, out = run_check(prop, repo, tier=os.environ.get("VF_TIER", "quick"))
                 first = [ln for ln in out.splitlines() if ln.strip().startswith("[")][:1]
                 rows.append({"prop": prop, "mutant": m["name"], "suite_passes": ok, "suite": tail, "check_exit": rc, "first": first})
                 print(f"{prop} {m['name']}: suite={'pass' if ok else 'FAIL'} ({tail}) check_exit={rc} {first[0][:200] if first else ''}")
